@@ -51,16 +51,15 @@ def withCenter (center : Pt) (d : Nat) : Option EG.Circle := do
 
 /-- `OffsetOutline::offset`: `2 * offset as u32` / `2 * (-offset) as u32` in `u32`. -/
 def offset (c : EG.Circle) (o : Int) : Option EG.Circle := do
-  let d ←
-    if o ≥ 0 then do
-      let t ← chkU32 (2 * i32AsU32 o)
-      pure (satAddU32 c.d t)
-    else do
-      let m ← chkI32 (-o)
-      let t ← chkU32 (2 * i32AsU32 m)
-      pure (c.d - t)
-  let ctr ← Chk.center c.boundingBox
-  withCenter ctr d
+  if o ≥ 0 then do
+    let tl ← ptSub c.tl ⟨o, o⟩
+    let t ← chkU32 (2 * i32AsU32 o)
+    pure ⟨tl, satAddU32 c.d t⟩
+  else do
+    let m ← chkI32 (-o)
+    let t ← chkU32 (2 * i32AsU32 m)
+    let ctr ← Chk.center c.boundingBox
+    withCenter ctr (c.d - t)
 
 end Circle
 
@@ -118,16 +117,15 @@ def withCenter (center : Pt) (size : Sz) : Option EG.Ellipse := do
 
 /-- `OffsetOutline::offset`. -/
 def offset (e : EG.Ellipse) (o : Int) : Option EG.Ellipse := do
-  let size ←
-    if o ≥ 0 then do
-      let t ← chkU32 (2 * i32AsU32 o)
-      pure (e.size.satAdd (Sz.newEqual t))
-    else do
-      let m ← chkI32 (-o)
-      let t ← chkU32 (2 * i32AsU32 m)
-      pure (e.size.satSub (Sz.newEqual t))
-  let ctr ← Chk.center e.boundingBox
-  withCenter ctr size
+  if o ≥ 0 then do
+    let tl ← ptSub e.tl ⟨o, o⟩
+    let t ← chkU32 (2 * i32AsU32 o)
+    pure ⟨tl, e.size.satAdd (Sz.newEqual t)⟩
+  else do
+    let m ← chkI32 (-o)
+    let t ← chkU32 (2 * i32AsU32 m)
+    let ctr ← Chk.center e.boundingBox
+    withCenter ctr (e.size.satSub (Sz.newEqual t))
 
 end Ellipse
 
